@@ -373,6 +373,13 @@ theorem blocks_all_ok : ∀ (l : List Block), (∀ b ∈ l, b.2 = none) → bloc
     have := ih (fun b hb => h b (List.mem_cons_of_mem _ hb))
     simp [blocks, this]
 
+/-- `writes` (the keys of `writeDict`) is computed from the parameters: renaming the object changes nothing -/
+@[simp] theorem writes_setName (c : ModCfg) (n : Name) : ({ c with name := n } : ModCfg).writes = c.writes := rfl
+
+@[simp] theorem objOf_writes (st : St) (m : Name) : (objOf st m).writes = (cfgOf st m).writes := rfl
+
+@[simp] theorem writeDict_setName (c : ModCfg) (n : Name) : writeDict ({ c with name := n } : ModCfg) = writeDict c := rfl
+
 /-- the loop body of `writeInitParams` attempts the write and lets nothing out, whatever `write_<p>` raises -/
 theorem writeOne_eq (c : ModCfg) (p : String) : writeOne c p = ([Ev.write c.name p], none) := by
   unfold writeOne
